@@ -103,14 +103,43 @@ def witness(run, sc, sch):
         pass
 
 
+def ten_namespaces(run, sc, sch):
+    """ten namespaces, the last one using the one before it: written namespace indices 8 and 9 (a set of small integers
+    holding 0, 1 and 9 does not iterate in ascending order)"""
+    files = {}
+    for j in range(1, 10):
+        uri = "urn:ten:n%d" % j
+        extra_uri = '<Uri>urn:ten:n8</Uri>' if j == 9 else ""
+        body = '<UAObjectType NodeId="ns=1;i=%d" BrowseName="1:T%d"><DisplayName>T%d</DisplayName><References><Reference ReferenceType="i=45" IsForward="false">i=58</Reference></References></UAObjectType>' % (100 + j, j, j)
+        if j == 9:
+            body += ('<UAObject NodeId="ns=1;i=500" BrowseName="1:O"><DisplayName>O</DisplayName><References><Reference ReferenceType="i=40">ns=2;i=108</Reference>'
+                     '<Reference ReferenceType="i=35" IsForward="false">i=85</Reference></References></UAObject>')
+        files["d%d.xml" % j] = ('<?xml version="1.0" encoding="utf-8"?>\n<UANodeSet xmlns="http://opcfoundation.org/UA/2011/03/UANodeSet.xsd"><NamespaceUris><Uri>%s</Uri>%s</NamespaceUris>'
+                                '<Models><Model ModelUri="%s" Version="1" PublicationDate="2020-01-01T00:00:00Z"><RequiredModel ModelUri="http://opcfoundation.org/UA/" Version="1.04" PublicationDate="2019-05-01T00:00:00Z"/></Model></Models>'
+                                '<Aliases/>%s</UANodeSet>' % (uri, extra_uri, uri, body))
+    try:
+        G, _ = W.build_graph(sc, "ten", files)
+    except Exception as e:  # noqa: BLE001
+        run.violation({"files": files}, {"what": "UAGraph.from_path raised on a closed document set", "impl": type(e).__name__ + ": " + str(e)[:300]})
+        return
+    gj = W.graph_json(G)
+    for uri in ("urn:ten:n9", "urn:ten:n8", "urn:ten:n1"):
+        run.case({"ten_namespaces": uri}, tag="write:ten-namespaces")
+        check(run, G, gj, uri, {"files": files, "uri": uri}, sch)
+
+
 def explore(run):
     rng = run.rng
     thorough = run.tier == "thorough"
     sch = W.schema()
     with minibase.Scratch() as sc:
         witness(run, sc, sch)
+        ten_namespaces(run, sc, sch)
+        if run.full():
+            return
         for i in range(800 if thorough else 32):
-            g, files = W.gen_closed(rng, hostile=rng.random() < 0.85)
+            # the first graphs have ten or more namespaces (two-digit indices; small-integer sets no longer iterate in order)
+            g, files = W.gen_closed(rng, hostile=rng.random() < 0.85) if i >= 2 else W.gen_closed(rng, hostile=False, features={"many_ns": True}, n_nodes=3)
             try:
                 G, _ = W.build_graph(sc, "g%d" % i, files)
             except Exception as e:  # noqa: BLE001
